@@ -311,6 +311,86 @@ fn history(src: &mut Src, st: &mut Stats, _env: &Env) -> CaseResult {
     Ok(())
 }
 
+/// Evaluation order of arguments: recording functions are used AS arguments,
+/// nested; the log must be the left-to-right post-order of the call tree (every
+/// argument evaluated exactly once, in source order, before the call itself).
+fn arg_order(src: &mut Src, st: &mut Stats, _env: &Env) -> CaseResult {
+    let log: Arc<Mutex<Vec<String>>> = Arc::new(Mutex::new(vec![]));
+    let mut rt = Runtime::new();
+    rt.register_builtin_functions();
+    for name in ["r1", "r2", "r3"] {
+        let lg = log.clone();
+        let nm = name.to_string();
+        rt.register_function(
+            name,
+            Box::new(move |args: &[Rcvar], _ctx: &mut Context<'_>| {
+                lg.lock().unwrap().push(format!("{}({})", nm, args.iter().map(|a| var_to_j(a).to_json()).collect::<Vec<_>>().join(",")));
+                Ok(args.first().cloned().unwrap_or_else(|| Rcvar::new(Variable::Null)))
+            }),
+        );
+    }
+    // a random call tree over r1..r3 and a few built-ins
+    fn gen(src: &mut Src, d: usize, expected: &mut Vec<String>, doc: &J) -> (String, J) {
+        let leafs = [("n", J::int(3)), ("s", J::s("str")), ("`1`", J::int(1)), ("xs[0]", J::int(1)), ("'l'", J::s("l")), ("z", J::Null)];
+        if d >= 4 || src.chance(70) {
+            let (t, v) = leafs[src.below(leafs.len())].clone();
+            return (t.to_string(), v);
+        }
+        let _ = doc;
+        match src.below(5) {
+            0 | 1 | 2 => {
+                let name = *src.pick(&["r1", "r2", "r3"]);
+                let n = 1 + src.below(3);
+                let mut texts = vec![];
+                let mut vals = vec![];
+                for _ in 0..n {
+                    let (t, v) = gen(src, d + 1, expected, doc);
+                    texts.push(t);
+                    vals.push(v);
+                }
+                expected.push(format!("{}({})", name, vals.iter().map(|v| v.to_json()).collect::<Vec<_>>().join(",")));
+                (format!("{}({})", name, texts.join(", ")), vals[0].clone())
+            }
+            3 => {
+                // a built-in in between: not_null evaluates all its arguments first
+                let n = 1 + src.below(3);
+                let mut texts = vec![];
+                let mut vals = vec![];
+                for _ in 0..n {
+                    let (t, v) = gen(src, d + 1, expected, doc);
+                    texts.push(t);
+                    vals.push(v);
+                }
+                let v = vals.iter().find(|v| !v.is_null()).cloned().unwrap_or(J::Null);
+                (format!("not_null({})", texts.join(", ")), v)
+            }
+            _ => {
+                let (t, v) = gen(src, d + 1, expected, doc);
+                (format!("to_array({})[0]", t), v)
+            }
+        }
+    }
+    let doc = J::parse(DOC).unwrap();
+    let mut expected = vec![];
+    let (expr, want_val) = gen(src, 0, &mut expected, &doc);
+    st.eval();
+    let case = json!({"expression": expr, "document": DOC});
+    let compiled = rt.compile(&expr).map_err(|e| Failure::new("arg-order", "harness-compile", e.to_string(), case.clone()))?;
+    let res = catch(std::panic::AssertUnwindSafe(|| compiled.search(Variable::from_json(DOC).unwrap()))).map_err(|p| Failure::new("arg-order", "panic", p, case.clone()))?;
+    let got_log = log.lock().unwrap().clone();
+    if got_log != expected {
+        return Err(Failure::new("arg-order", "arguments-not-evaluated-in-source-order", format!("calls observed {:?}, expected {:?}", got_log, expected), case));
+    }
+    match res {
+        Ok(v) if var_to_j(&v).deep_eq(&want_val) => {}
+        other => return Err(Failure::new("arg-order", "wrong-function-called", format!("result {:?} expected {}", other.map(|v| v.to_string()).map_err(|e| classify(&e).detail), want_val.to_json()), case)),
+    }
+    if expected.len() >= 3 && st.nontrivial(&expr) {
+        st.sample(|| json!({"expression": expr, "calls": expected}));
+    }
+    Ok(())
+}
+
 pub fn property() -> Property {
     Property {
         id: "C15",
@@ -320,6 +400,9 @@ pub fn property() -> Property {
             "argument values are the reference evaluation of the argument expressions on the fixed document".into(),
         ],
         minimise: None,
-        subs: vec![Sub::Bytes(BytesSub { name: "history", f: history, max_len: 600, quick: Budget { threads: 8, cases: 1500 }, thorough: Budget { threads: 16, cases: 80_000 }, keep_unreproducible: false })],
+        subs: vec![
+            Sub::Bytes(BytesSub { name: "arg-order", f: arg_order, max_len: 200, quick: Budget { threads: 4, cases: 2000 }, thorough: Budget { threads: 16, cases: 60_000 }, keep_unreproducible: false }),
+            Sub::Bytes(BytesSub { name: "history", f: history, max_len: 600, quick: Budget { threads: 8, cases: 1500 }, thorough: Budget { threads: 16, cases: 80_000 }, keep_unreproducible: false }),
+        ],
     }
 }
